@@ -44,6 +44,11 @@ MUTS = {
  "O1-optional-identity-requirement-dropped": ("src/spox/_internal_op.py", "            return {(\"\", IDENTITY_OPTIONAL_MIN_OPSET)}\n        return {(\"\", INTERNAL_MIN_OPSET)}", "            return {(\"\", INTERNAL_MIN_OPSET)}\n        return {(\"\", INTERNAL_MIN_OPSET)}"),
  "O2-floor-only-when-optional": ("src/spox/_internal_op.py", "            return {(\"\", IDENTITY_OPTIONAL_MIN_OPSET)}\n        return {(\"\", INTERNAL_MIN_OPSET)}", "            return {(\"\", IDENTITY_OPTIONAL_MIN_OPSET)}\n        return set()"),
  "O3-optional-constant-15": ("src/spox/_internal_op.py", "IDENTITY_OPTIONAL_MIN_OPSET = 16", "IDENTITY_OPTIONAL_MIN_OPSET = 15"),
+ "Q1-qualify-renames-the-results-too": ("src/spox/_adapt.py", "    known = set(proto.input) | set(proto.output)\n", "    known = set(proto.input)\n"),
+ "Q2-qualify-renames-definitions-only": ("src/spox/_adapt.py", "        for names in (nd.input, nd.output):\n", "        for names in (nd.output,):\n"),
+ "Q3-qualify-renames-the-empty-name": ("src/spox/_adapt.py", "name for nd in target_nodes for name in nd.output if name and name not in known", "name for nd in target_nodes for name in nd.output if name not in known"),
+ "Q4-constants-after-the-nodes": ("src/spox/_adapt.py", "    nodes = constants + list(graph.node)\n", "    nodes = list(graph.node) + constants\n"),
+ "Q5-input-defaults-become-constants-too": ("src/spox/_adapt.py", "        if init.name not in input_names\n", "        if True\n"),
  "G1-functions-get-default-domain-opsets-only": ("src/spox/_graph.py", "proto = fun.to_onnx_function(extra_opset_req=opset_req)", "proto = fun.to_onnx_function(extra_opset_req=[(d, v) for d, v in opset_req if d == ''])"),
 }
 # several edits at once: (name, [(file, old, new), ...])
